@@ -37,11 +37,31 @@ def header_witness(R):
     return w
 
 
+def run_framing(R, tier, seed):
+    from mirsmt.prove import Prover
+    from mirsmt.env import Inconclusive
+    from mirsmt.symexec import Unsupported
+    from . import codeclib
+    ctx = codeclib.Ctx()
+    prover = Prover(R, tier, cross_order=("z3-4.8.12", "cvc5"))
+    for name, f in (("read_message", codeclib.read_message_obligation), ("write_message", codeclib.write_message_obligation)):
+        try:
+            f(ctx, R, prover)
+        except (Unsupported, Inconclusive) as e:
+            R.add("C20/Codec::%s/encoding" % name, "inconclusive", detail=str(e)[:400])
+
+
 def run(R, tier, seed):
-    R.trusted += ["Kani 0.68 / CBMC 6.11 (cadical)", "stub: std::fmt::format -> String::new() (error message text is never the subject)"]
-    R.assumptions += ["decided: FrameHeader encode/decode/validate and MessageType::from_u8 over ALL 2^96 buffers / all header values",
-                      "NOT covered: bincode payload encoding of Message/Signature/Delta (Codec round trip), Message::decode on arbitrary bytes, "
-                      "and the CLI readers (tokio file I/O) — Kani does not finish on serde/bincode (DESIGN §4 C20, §8)"]
+    R.trusted += ["Kani 0.68 / CBMC 6.11 (cadical)", "stub: std::fmt::format -> String::new() (error message text is never the subject)",
+                  "E1 (framing): rustc MIR dump + mirsmt encoder; Message::encode / Message::decode are contracts (bincode is not modelled); "
+                  "bincode::deserialize_from is modelled by its hazard (reserves untrusted length prefixes)"]
+    R.assumptions += ["decided (Kani): FrameHeader encode/decode/validate and MessageType::from_u8 over ALL 2^96 buffers / all header values",
+                      "decided (E1): Codec::read_message on ANY wire input never panics, never requests more than 16 MiB, rejects every malformed header and short input, "
+                      "and on success has passed exactly the announced payload slice to Message::decode; Codec::write_message writes COPA|LE len|type|1|0 0 followed by exactly "
+                      "the encoded payload iff it is encodable and <= 16 MiB",
+                      "NOT covered: bincode's own payload encoding/decoding of Message/Signature/Delta (round trip of field values, behaviour of Message::decode on "
+                      "arbitrary bytes), and the CLI readers (tokio file I/O)"]
+    run_framing(R, tier, seed)
     fns = ["FrameHeader::decode", "FrameHeader::encode", "FrameHeader::validate", "FrameHeader::new", "MessageType::from_u8"]
     specs = [
         dict(h="header::c20_decode_accepts_exactly_valid_headers", bound="all 2^96 twelve-byte buffers", functions=fns, witness=header_witness(R)),
